@@ -16,7 +16,8 @@ ANCHORED = [
     ('cherrypy.lib.encoding', ['compress', 'gzip', 'prepare_iter', 'ResponseEncoder.__init__',
                                'ResponseEncoder.encode_stream', 'ResponseEncoder.encode_string',
                                'ResponseEncoder.find_acceptable_charset', 'ResponseEncoder.__call__']),
-    ('cherrypy.lib', ['set_vary_header']),
+    ('cherrypy.lib', ['set_vary_header', 'file_generator.__init__', 'file_generator.__iter__', 'file_generator.__next__',
+                      'file_generator_limited']),
     ('cherrypy.lib.httputil', ['header_elements', 'HeaderElement.__init__', 'HeaderElement.__lt__',
                                'HeaderElement.__str__', 'HeaderElement.parse', 'HeaderElement.from_str',
                                'AcceptElement.from_str', 'AcceptElement.qvalue', 'AcceptElement.__lt__']),
